@@ -9,7 +9,9 @@ Model of partition-key extraction and token calculation (C03).
   with a running iterator offset (`u16` arithmetic; the harness is built with overflow checks, so an underflow of
   `index - offset` or an overflow of `index + 1` is a panic), stores each non-null value at `pk_values[sequence]`.
 * `encodeChunks`    ← `write_encoded_partition_key` (822-848): the chunks handed to the writer.
-* `calculateToken`  ← `PartitionKey::calculate_token` (850-860) with `PartitionerName::build_hasher`.
+* `calculateToken`  ← `PartitionKey::calculate_token` (850-860) with `PartitionerName::build_hasher`
+  (= `calculate_token_untyped` on already serialized values); `boundCalculateToken` / `boundComputePartitionKey` add the
+  `serialize_values` guard of the public entry points.
 * `computePartitionKey` ← `PreparedStatement::compute_partition_key` (348-360).
 * `tokenForPartitionKey` ← `calculate_token_for_partition_key` (`partitioner.rs:396-423`).
 -/
@@ -103,6 +105,9 @@ def encodeChunks (pkValues : List (Option (List UInt8))) : Except Nat (List (Lis
 inductive TokenErr where
   | extraction (e : ExtractErr)
   | valueTooLong (len : Nat)
+  /-- `PartitionKeyError::Serialization`: `serialize_values` failed (`SerializedValues` counts its elements in a
+  `u16`: the 65536th value is `TooManyValues`) -/
+  | serialization
   deriving Repr, DecidableEq
 
 /-- Feeding a chunk list to the hasher selected by the partitioner name. -/
@@ -127,6 +132,15 @@ def computePartitionKey (pk : List PkIndex) (values : List RawValue) : Except To
     match encodeChunks pkValues with
     | .error n => .error (.valueTooLong n)
     | .ok chunks => .ok chunks.flatten
+
+/-- `PreparedStatement::calculate_token(values)` (394-399) = `calculate_token_untyped(&self.serialize_values(values)?)`:
+binding more than 65535 values fails in `serialize_values` before the partition key is looked at. -/
+def boundCalculateToken (cdc : Bool) (pk : List PkIndex) (values : List RawValue) : Except TokenErr (Option Int64) :=
+  if values.length > 65535 then .error .serialization else calculateToken cdc pk values
+
+/-- `PreparedStatement::compute_partition_key(values)` (348-360), with the same `serialize_values` guard. -/
+def boundComputePartitionKey (pk : List PkIndex) (values : List RawValue) : Except TokenErr (List UInt8) :=
+  if values.length > 65535 then .error .serialization else computePartitionKey pk values
 
 /-- `calculate_token_for_partition_key` (`partitioner.rs:396-423`): values already in partition-key order.
 One element: written iff it is a value. Otherwise every *value* gets the composite framing. -/
